@@ -427,3 +427,19 @@ def skip_logging(nm, args, t, path):
         if nm.endswith('PartialOrd::le') or nm.endswith('::le') or nm.endswith('max_level'):
             return ('const', 0, 'bool')
     return None
+
+
+def term_has(v, needle):
+    """True if any string leaf of the term contains `needle` (full traversal, no depth cut)."""
+    st = [v]
+    while st:
+        x = st.pop()
+        if isinstance(x, str):
+            if needle in x:
+                return True
+        elif isinstance(x, (tuple, list)):
+            st.extend(x)
+        elif isinstance(x, dict):
+            st.extend(x.values())
+            st.extend(x.keys())
+    return False
